@@ -8,7 +8,8 @@
    queued task is enabled (its wake-up is not lost).
    e_hist is the history, NEWEST FIRST; returned s <-> Run / Client.Stop has returned. *)
 From GV Require Import Lib.Trace Lib.Interleave Model.Engine Proofs.EngineBase Proofs.EngineInv Proofs.EngineHist
-  Proofs.EngineConns Proofs.EngineWorkers Proofs.EngineProgress Proofs.EngineProofs Proofs.EngineExtra.
+  Proofs.EngineConns Proofs.EngineWorkers Proofs.EngineProgress Proofs.EngineProofs Proofs.EngineExtra
+  Proofs.EngineTick.
 From Coq Require Import List ZArith.
 Import ListNotations.
 Open Scope list_scope.
@@ -47,6 +48,31 @@ Theorem C06_tick_shutdown_requests : forall s s' evs, Inv_pc s ->
   requested s' = true.
 Proof. exact tick_shutdown_requests. Qed.
 Print Assumptions C06_tick_shutdown_requests.
+
+(* ... and the side condition about the exited loop is not needed in reachable states: a loop
+   (event loop or main reactor) exits only after the engine has been cancelled ... *)
+Theorem C06_exited_cancelled : forall s, ereachable s ->
+  (forall i l, get_loop s i = Some l -> l_pc l = LExited -> e_cancel s = true) /\
+  (l_pc (e_ing s) = LExited -> e_cancel s = true).
+Proof. exact exited_cancelled. Qed.
+Print Assumptions C06_exited_cancelled.
+
+(* ... so OnTick returning Shutdown raises `requested` in every reachable state of a
+   configuration in which the ticker's loop exists (with reactors: always; without: at least
+   one event loop, which gnet guarantees: determineEventLoops returns at least 1) ... *)
+Theorem C06_tick_shutdown_requests_reachable : forall s s' evs, ereachable s ->
+  (c_reactor (e_cfg s) = false -> c_nloops (e_cfg s) <> O) ->
+  tstep s (CTick AShut) = Some (s', evs) -> requested s' = true.
+Proof. exact tick_shutdown_requests_reachable. Qed.
+Print Assumptions C06_tick_shutdown_requests_reachable.
+
+(* ... whereas the statement without the hypothesis on the configuration is false in the model,
+   which accepts a configuration without reactors and without loops as initial (witness:
+   tick_witness in Proofs/EngineTick.v: boot, start, tick) *)
+Theorem C06_tick_shutdown_requests_full_refuted :
+  ~ (forall s s' evs, ereachable s -> tstep s (CTick AShut) = Some (s', evs) -> requested s' = true).
+Proof. exact tick_shutdown_requests_full_refuted. Qed.
+Print Assumptions C06_tick_shutdown_requests_full_refuted.
 
 Theorem C06_inv_pc_reachable : forall s, ereachable s -> Inv_pc s.
 Proof. exact inv_pc_reachable. Qed.
